@@ -192,7 +192,8 @@ package proxy
 //@
 //@ // ---- C07: the response passes through the recording writer unchanged ------------------------------------
 //@ func (*responseWriter).WriteHeader
-//@   props C07
+//@   // C17: the compressing writer sits on top of this writer - what it forwards has to arrive
+//@   props C07 C17
 //@   requires rw != nil && rw.w != nil
 //@   assigns rw.code, lastStatus, statusWrites
 //@   ensures nopanic
@@ -200,7 +201,8 @@ package proxy
 //@   ensures lastStatus == statusCode && statusWrites == old(statusWrites) + 1 && rw.code == statusCode
 //@
 //@ func (*responseWriter).Write
-//@   props C07
+//@   // C17: the compressing writer sits on top of this writer - what it forwards has to arrive
+//@   props C07 C17
 //@   requires rw != nil && rw.w != nil
 //@   assigns rw.size, respBody
 //@   ensures nopanic
